@@ -79,3 +79,11 @@ Theorem box_infeasible_coefficients_are_in_the_support : forall C (w : list R) g
   forall j, (j < length w)%nat -> (nth j w 0 < 0 \/ C < nth j w 0) -> 0 <= C -> nth j gs false = true.
 Proof. exact IndicatorBox_gsupp_covers_infeasible. Qed.
 Print Assumptions box_infeasible_coefficients_are_in_the_support.
+
+(* the working-set score of IndicatorBox is +inf at a coefficient outside the box (regenerated method = the score of the
+   true subdifferential, which is empty there): a run cannot report stop_crit <= tol while a coefficient it scores is infeasible *)
+Require Import SK.Lemmas.Subdiff.
+Theorem box_infeasible_coefficient_scores_infinity : forall C j w g,
+  0 <= C -> (w < 0 \/ C < w) -> score (subdiff_box C) j w g = PInf.
+Proof. exact box_score_infeasible. Qed.
+Print Assumptions box_infeasible_coefficient_scores_infinity.
